@@ -127,7 +127,7 @@ def trips3 : List Int → List (Entry Int)
 
 def parOpName : Nat → String
   | 0 => "assemble" | 1 => "conv" | 2 => "copy" | 3 => "transpose" | 4 => "add" | 5 => "subtract"
-  | 6 => "to_ParBSR" | _ => "ParBSR_to_ParCSR"
+  | 6 => "to_ParBSR" | 7 => "ParBSR_to_ParCSR" | _ => "ParBCOO_assemble"
 
 def checkPar : Rd Verdict := do
   let op ← rdNat; let from_ ← rdNat; let to ← rdNat; let step ← rdNat; let np ← rdNat; let kind ← rdNat
@@ -150,11 +150,11 @@ def checkPar : Rd Verdict := do
   if op == 3 && nRows == 0 then return ok (feats ++ ["trivial", "unowned_columns"])
   let (wr, wc) := if op == 3 then (nCols, nRows) else (nRows, nCols)
   -- block results report their sizes in blocks
-  let (ubr, ubc) := if op == 6 then (br, bc) else (1, 1)
+  let (ubr, ubc) := if op == 6 || op == 8 then (br, bc) else (1, 1)
   for (s, r) in shape.zipIdx do
     if (s.getD 7 0).toNat * ubr != wr || (s.getD 8 0).toNat * ubc != wc then
       return specFail (path ++ "/spec/global_dims") s!"rank{r} reports {s.getD 7 0}x{s.getD 8 0} (block {ubr}x{ubc}), expected {wr}x{wc}" feats
-    if op == 6 && ((s.getD 9 0).toNat != br || (s.getD 10 0).toNat != bc) then
+    if (op == 6 || op == 8) && ((s.getD 9 0).toNat != br || (s.getD 10 0).toNat != bc) then
       return specFail (path ++ "/spec/block_size") s!"rank{r} block {s.getD 9 0}x{s.getD 10 0}, expected {br}x{bc}" feats
   if (lrs.map (· * ubr)).sum != wr then
     return specFail (path ++ "/spec/local_rows_sum") s!"local rows {showList lrs} (x{ubr}) do not sum to {wr}" feats
